@@ -498,7 +498,8 @@ vtop_init(kdump_ctx_t *ctx)
 		return set_error(ctx, status,
 				 "Arch late init failed");
 
-	if (ctx->shared->ops->post_addrxlat &&
+	if (ctx->shared->ops &&
+	    ctx->shared->ops->post_addrxlat &&
 	    (status = ctx->shared->ops->post_addrxlat(ctx)) != KDUMP_OK)
 		return set_error(ctx, status,
 				 "Format late init failed");
